@@ -252,6 +252,21 @@ impl<'a> Rewriter<'a> {
         }
     }
 
+    /// kind of an expression where it is syntactically evident (casts, literals, known idents)
+    fn expr_kind(&self, e: &Expr) -> Option<Kind> {
+        match e {
+            Expr::Cast(c) => Some(self.type_kind(&c.ty)),
+            Expr::Lit(_) => Some(Kind { prim: true, is_ref: false }),
+            Expr::Paren(p) => self.expr_kind(&p.expr),
+            Expr::Path(_) => Self::ident_of(e).and_then(|id| self.lookup(&id)),
+            Expr::Unary(u) if matches!(u.op, UnOp::Deref(_)) => {
+                self.expr_kind(&u.expr).map(|k| Kind { prim: k.prim, is_ref: false })
+            }
+            Expr::Reference(r) => self.expr_kind(&r.expr).map(|k| Kind { prim: k.prim, is_ref: true }),
+            _ => None,
+        }
+    }
+
     fn expr_is_ref(&self, e: &Expr) -> bool {
         match e {
             Expr::Reference(_) => true,
@@ -270,7 +285,17 @@ impl<'a> Rewriter<'a> {
     fn bind_pat(&mut self, p: &Pat, by_ref: bool, under: Option<bool>, scrut: Option<&Expr>) {
         match p {
             Pat::Ident(pi) => {
-                let prim = under.unwrap_or(false);
+                let mut prim = under.unwrap_or(false);
+                let mut by_ref = by_ref;
+                if under.is_none() {
+                    // a plain binding takes the kind of its initialiser when that is syntactically evident
+                    if let Some(e) = scrut {
+                        if let Some(k) = self.expr_kind(e) {
+                            prim = k.prim;
+                            by_ref = k.is_ref;
+                        }
+                    }
+                }
                 let k = Kind {
                     prim,
                     is_ref: by_ref || pi.by_ref.is_some(),
@@ -408,6 +433,24 @@ impl<'a, 'ast> Visit<'ast> for Rewriter<'a> {
 
     fn visit_stmt_macro(&mut self, m: &'ast StmtMacro) {
         let name = m.mac.path.segments.last().map(|s| s.ident.to_string()).unwrap_or_default();
+        if name == "assert" {
+            // R-assert: `assert!(c)` / `assert!(c, msg..)` -> `vx_assert(c);` (prelude: `requires c`), i.e. the
+            // run-time assertion becomes a proof obligation
+            if let Ok(args) = m.mac.parse_body_with(punctuated::Punctuated::<Expr, Token![,]>::parse_terminated) {
+                if let Some(c) = args.first() {
+                    self.visit_expr(c);
+                    let cr = self.r(c.span());
+                    let whole = self.r(m.span());
+                    self.edits.replace(
+                        whole,
+                        vec![Piece::Lit("vx_assert(".into()), Piece::Src(cr.0, cr.1), Piece::Lit(");".into())],
+                        "R-assert",
+                    );
+                    self.note("R-assert", m.span());
+                    return;
+                }
+            }
+        }
         if self.cfg.drop_macros.contains(&name) {
             let r = self.r(m.span());
             self.edits.delete(r, "R-drop:macro");
@@ -455,6 +498,14 @@ impl<'a, 'ast> Visit<'ast> for Rewriter<'a> {
         }
         self.visit_expr(&c.body);
         self.scopes.pop();
+    }
+
+    fn visit_expr_unary(&mut self, u: &'ast ExprUnary) {
+        self.visit_expr(&u.expr);
+        if self.cfg.rderef && matches!(u.op, UnOp::Neg(_)) {
+            // `-x` with x: &i64  ==  `-*x`  (std's forward_ref_unop)
+            self.deref_if_ref_prim(&u.expr);
+        }
     }
 
     fn visit_expr_binary(&mut self, b: &'ast ExprBinary) {
